@@ -232,7 +232,7 @@ def callersTable : List (List String × Bool × Bool × Fate × String × String
   (["stream", "flip"], false, false, .untouched, "none:err:canceled", "none:err:canceled", "none:err:canceled"),
   (["stream", "multiflip"], false, false, .untouched, "none:err:canceled", "none:err:canceled", "none:err:canceled"),
   (["stream", "multi"], false, false, .fine, "ok,ok,ok", "none:err:io", "none:err:closing"),
-  (["stream", "badwriter"], false, false, .failed, "err:io,err:io", "none:err:io", "none:err:closing"),
+  (["stream", "badwriter"], false, false, .fine, "err:io,err:io", "none:err:io", "none:err:closing"),
   (["dedicated", "ok"], true, false, .fine, "ok,ok", "err:io,ok", "err:closing,ok"),
   (["dedicated", "fail"], true, false, .failed, "err:eof,ok", "err:io,ok", "err:closing,ok"),
   (["dedicate", "ok"], true, false, .fine, "ok", "err:io", "err:closing"),
